@@ -19,6 +19,7 @@ import (
 
 	"github.com/boz/kcache"
 	"github.com/boz/kcache/filter"
+	"github.com/boz/kcache/nsname"
 	metav1 "k8s.io/apimachinery/pkg/apis/meta/v1"
 	"pgregory.net/rapid"
 )
@@ -341,6 +342,11 @@ func c07Composites() []*term {
 		c(tOr, l1, l1), c(tOr, l1, l2), c(tOr, l2, l1), c(tOr, l2, l2), c(tOr, l1, nsA), c(tOr, nsA, nsA),
 		c(tAnd, nsA, nsA), c(tAnd, nsA, l1), c(tAnd, l1, nsA), c(tAnd, nsA, l2), c(tAnd, l1, l1),
 		c(tNot, l2), c(tNot, c(tNot, l1)), c(tOr), c(tAnd),
+		// NSName id lists mixing full, namespace-only and name-only entries
+		{Kind: tNSName, IDs: []nsname.NSName{nsname.New("a", ""), nsname.New("b", "p")}},
+		{Kind: tNSName, IDs: []nsname.NSName{nsname.New("b", "p"), nsname.New("a", "")}},
+		{Kind: tNSName, IDs: []nsname.NSName{nsname.New("", "q"), nsname.New("a", "p")}},
+		{Kind: tNSName, IDs: []nsname.NSName{nsname.New("a", "p"), nsname.New("b", "q")}},
 	}
 }
 
